@@ -72,41 +72,6 @@ void convertEvent(NifFile& nif, OptOptions opts, const std::string& caseJson, bo
 	out += ev.done() + "\n";
 }
 
-void addStripsShape(NifFile& nif) {
-	// an NiTriStrips shape: a 3x3 grid stitched into one strip with degenerate stitches, plus a second plain strip
-	auto data = std::make_unique<NiTriStripsData>();
-	std::vector<Vector3> v;
-	std::vector<Vector2> uv;
-	std::vector<Vector3> n;
-	for (int y = 0; y < 3; y++)
-		for (int x = 0; x < 3; x++) {
-			v.emplace_back(float(x), float(y), 5.0f);
-			uv.emplace_back(0.5f * float(x), 0.5f * float(y));
-			n.emplace_back(0.0f, 0.0f, 1.0f);
-		}
-	data->Create(nif.GetHeader().GetVersion(), &v, nullptr, &uv, &n);
-	// (a short strip first: the winding of a strip's triangles depends on the position inside that strip only)
-	data->stripsInfo.points = {{0, 1, 3}, {0, 3, 1, 4, 2, 5, 5, 3, 3, 6, 4, 7, 5, 8}, {4, 5, 7, 8}};
-	data->stripsInfo.stripLengths.clear();
-	for (auto& p : data->stripsInfo.points) {
-		uint16_t l = (uint16_t) p.size();
-		data->stripsInfo.stripLengths.push_back(l);
-	}
-	data->stripsInfo.hasPoints = true;
-	auto& hdr = nif.GetHeader();
-	uint32_t did = hdr.AddBlock(std::move(data));
-	auto shape = std::make_unique<NiTriStrips>();
-	shape->name.get() = "Strips";
-	shape->DataRef()->index = did;
-	auto tex = std::make_unique<BSShaderTextureSet>(hdr.GetVersion());
-	auto sh = std::make_unique<BSLightingShaderProperty>(hdr.GetVersion());
-	sh->TextureSetRef()->index = hdr.AddBlock(std::move(tex));
-	shape->ShaderPropertyRef()->index = hdr.AddBlock(std::move(sh));
-	uint32_t sid = hdr.AddBlock(std::move(shape));
-	nif.GetRootNode()->childRefs.AddBlockRef(sid);
-	nif.LinkGeomData();
-}
-
 void buildCase(const JV& c, size_t k, std::string& out) {
 	bool toSSE = c["toSSE"].b;
 	NifFile gen;
@@ -174,6 +139,22 @@ void buildCase(const JV& c, size_t k, std::string& out) {
 		order[0] = d;
 		order[d] = 0;
 		hd.SetBlockOrder(order);
+		NifFile re;
+		if (loadFromString(re, saveToString(nif, false, false)) != 0) return;
+		nif.CopyFrom(re);
+	}
+	else if (odd == "sharedData") {
+		// a second instance of the first shape: its own shape block, the geometry data block shared
+		NiShape* first = nullptr;
+		for (auto sh : nif.GetShapes())
+			if (sh->HasType<NiTriShape>() && !first) first = sh;
+		if (!first) return;
+		NiShape* inst = nif.CloneShape(first, "Inst");
+		if (!inst || !inst->DataRef() || inst->DataRef()->IsEmpty()) return;
+		uint32_t own = inst->DataRef()->index;
+		inst->DataRef()->index = first->DataRef()->index;
+		nif.GetHeader().DeleteBlock(own);
+		nif.LinkGeomData();
 		NifFile re;
 		if (loadFromString(re, saveToString(nif, false, false)) != 0) return;
 		nif.CopyFrom(re);
